@@ -20,6 +20,23 @@ ATTACHED = ['png', 'css', 'empty', 'html', 'garbage']
 _counter = itertools.count(1)
 
 
+def doc_fonts(rng):
+    """Font payloads for documents: the plain ones, or a damaged real font that can never be installed (the shared
+    fontconfig configuration of the harness must not collect half-broken fonts)."""
+    if rng.random() < 0.5:
+        return FONTS
+    return R.damaged_names('font', lambda c: not (c.font_ok and (c.woff_ok or not c.woff)))
+
+
+def doc_images(rng):
+    r = rng.random()
+    if r < 0.5:
+        return GOOD_IMAGES
+    if r < 0.8:
+        return BAD_IMAGES + ['xhtml']
+    return R.damaged_names('image')
+
+
 def fail_spec(rng, names, p_fail, mimes=(None,), escaping=0.06, redirects=(None,)):
     """A fetch outcome for a document resource.  Failure modes: the fetcher raises; empty / truncated / wrong-type /
     HTML data; wrong MIME type.  With probability `escaping`, one of the outcomes that the loaders do not absorb
@@ -82,9 +99,13 @@ class DocGen:
             return
         path = url2pathname(urlparse(target).path)
         if self.rng.random() < 0.5 and path not in self.fs:
-            name = spec.content.name if spec.kind == 'resp' else 'png'
+            # another file of the same format and mode at that path (other pixels)
+            pil = spec.content.pil if spec.kind == 'resp' else None
             twins = R.bank()
-            foreign = twins.get(name + '_twin') or twins['png_twin' if name != 'png_cut_tail' else 'png_twin']
+            if pil and pil[0] in ('JPEG', 'MPO'):
+                foreign = twins['jpeg_l_twin' if pil[1] == 'L' else 'jpeg_twin']
+            else:
+                foreign = twins['png_rgba_twin' if (pil and pil[1] == 'RGBA') else 'png_twin']
             self.fs[path] = foreign
             Path(path).parent.mkdir(parents=True, exist_ok=True)
             Path(path).write_bytes(foreign.data)
@@ -127,7 +148,7 @@ class DocGen:
                 for _ in range(self.rng.randrange(1, 4)):
                     if self.rng.random() < 0.9:
                         text, url = self.url('font', self.rng.choice(['otf', 'woff', 'woff2']), base)
-                        spec = fail_spec(self.rng, FONTS, 0.4)
+                        spec = fail_spec(self.rng, doc_fonts(self.rng), 0.4)
                         self.table[url] = spec
                         srcs.append({'kind': 'ext', 'text': text, 'url': url, 'spec': spec})
                     else:
@@ -235,7 +256,7 @@ class DocGen:
                 previous = rng.choice(self.images)
                 if previous['url']:
                     text, url = previous['text'], previous['url']
-            names = GOOD_IMAGES if rng.random() < 0.55 else BAD_IMAGES + ['xhtml']
+            names = doc_images(rng)
             if url not in self.table:
                 redirects = [None] * 6 + [f'file://{self.tmp}/redir{self.n}x{next(self.ids)}.png', 'http://cdn.test/moved.png']
                 spec = fail_spec(rng, names, 0.35, mimes=[None, 'image/png', 'image/svg+xml', 'text/html', 'image/jpeg'],
